@@ -242,16 +242,26 @@ class FilterHistories:
     """paranoia_mode applied again and again in one process (one wallet, changing account): the last result is judged"""
 
     def ops(self, hist):
-        return [0, 1, 2]
+        # an int = filter a fresh mapping of that account; ["same", a] = refill ONE long-lived mapping object with account a's
+        # wallet and filter it again (the filter sees the same object with new content)
+        return [0, 1, 2, ["same", 0], ["same", 1]]
 
     def run(self, hist):
         from btc_hd_wallet.__main__ import paranoia_mode
         src = SOURCES[0]
         w = api_wallet(src, False)
         viols = []
-        for n, acct in enumerate(hist):
-            full = w.generate(acct, (0, 1))
-            st, filt = attempt(paranoia_mode, w.generate(acct, (0, 1)))
+        shared = {}
+        for n, op in enumerate(hist):
+            acct = op if isinstance(op, int) else op[1]
+            full = w.generate(acct, (0, 1) if isinstance(op, int) else (acct, acct + 2))
+            if isinstance(op, int):
+                arg = w.generate(acct, (0, 1))
+            else:
+                shared.clear()
+                shared.update(w.generate(acct, (acct, acct + 2)))
+                arg = shared
+            st, filt = attempt(paranoia_mode, arg)
             if n == len(hist) - 1:
                 if st != "ok":
                     viols.append(V(P + ":paranoia_mode:history:raised", "after %d earlier calls paranoia_mode raised %s" % (n, filt)))
